@@ -169,7 +169,10 @@ impl Directory {
     )]
     #[cfg_async_filter]
     async fn fn_name(&self, output: &mut input_traits, compression: Compression) -> Result<()> {
-        let mut writer = compress(compression, output)?;
+        // Encode into a buffer first: the compression writers finish their stream when they are
+        // dropped and would silently discard an I/O error of `output` that happens at that point.
+        let mut buffer = Vec::<u8>::new();
+        let mut writer = compress(compression, &mut buffer)?;
 
         write_varint([writer], [self.entries.len()])?;
 
@@ -211,6 +214,9 @@ impl Directory {
         }
 
         add_await([writer.flush()])?;
+        drop(writer);
+
+        add_await([output.write_all(&buffer)])?;
 
         Ok(())
     }
